@@ -480,6 +480,39 @@ func c08CLI(c *Ctx) {
 				}
 			}
 		}
+		// input / output paths that cannot be read or written at all
+		os.Mkdir(filepath.Join(dir, "a-directory"), 0o755)
+		os.Mkdir(filepath.Join(dir, "a-directory.gz"), 0o755)
+		os.Symlink(filepath.Join(dir, "nowhere"), filepath.Join(dir, "dangling.log"))
+		for _, pe := range []struct {
+			name string
+			args []string
+		}{
+			{"input is a directory", []string{"redact", filepath.Join(dir, "a-directory")}},
+			{"input is a directory named *.gz", []string{"redact", filepath.Join(dir, "a-directory.gz")}},
+			{"input does not exist", []string{"redact", filepath.Join(dir, "no-such-file.log")}},
+			{"input is a dangling symbolic link", []string{"redact", filepath.Join(dir, "dangling.log")}},
+			{"input is an empty .gz file", []string{"redact", filepath.Join(dir, "empty.log.gz")}},
+			{"--outputFile is a directory", []string{"redact", in, "--outputFile", filepath.Join(dir, "a-directory")}},
+			{"--outputFile lies in a directory that does not exist", []string{"redact", in, "--outputFile", filepath.Join(dir, "no", "such", "dir", "out.log")}},
+			{"--outputFile lies below a regular file", []string{"redact", in, "--outputFile", filepath.Join(in, "out.log")}},
+		} {
+			os.WriteFile(filepath.Join(dir, "empty.log.gz"), nil, 0o644)
+			r, err := runCLI(CLIRun{Bin: c.CLI, Args: pe.args, Dir: dir})
+			c.Eval(1)
+			c.Count("cli_runs", 1)
+			c.Distinct("path " + pe.name)
+			if err != nil {
+				continue
+			}
+			if r.Exit == 0 && r.Signal == "" {
+				c.Violate("cli:unusable-path:exit-0", fmt.Sprintf("%s: nothing can be read / written but the run exits 0 (stdout %d bytes, stderr %q)", pe.name, len(r.Stdout), trunc(string(r.Stderr), 120)), 0, map[string]any{"kind": "cli-path", "case": pe.name, "args": pe.args}, nil)
+			} else if bytes.Contains(r.Stderr, []byte("goroutine ")) {
+				c.Violate("cli:unusable-path:crash", fmt.Sprintf("%s: the run crashes: %s", pe.name, trunc(firstLine(string(r.Stderr)), 160)), 0, map[string]any{"kind": "cli-path", "case": pe.name, "args": pe.args}, nil)
+			} else {
+				c.Outcome("device-error-reported")
+			}
+		}
 		// stdout is a pipe whose reader has gone away
 		pr, pw, err := os.Pipe()
 		if err == nil {
